@@ -179,8 +179,13 @@ def slice_and_tuple_scenarios(ctx, out):
         pts_unique = rng.random() < 0.5
         A.eStructuralFeatures.append(E.EAttribute('pts', Point, upper=-1, unique=pts_unique))
         A.eStructuralFeatures.append(E.EAttribute('pt', Point))
+        # a non-unique plain reference list over a small pool: slice assignments whose new values OVERLAP the replaced ones
+        Bc = E.EClass('B')
+        A.eStructuralFeatures.append(E.EReference('refs', Bc, upper=-1, unique=False))
+        pool = [Bc() for _ in range(4)]
+        pname = {id(b): 'b%d' % i for i, b in enumerate(pool)}
         a = A()
-        mirror = {'ints': [], 'pts': [], 'pt': None}
+        mirror = {'ints': [], 'pts': [], 'pt': None, 'refs': []}
         log = []
 
         def cb(nf):
@@ -201,9 +206,21 @@ def slice_and_tuple_scenarios(ctx, out):
         hist = []
         bad = None
         for step in range(rng.randrange(3, 10)):
-            k = rng.choice(['slice', 'slice', 'append', 'extend', 'pt', 'pts-append', 'pts-remove', 'pts-extend', 'pop', 'bad-batch', 'bad-batch'])
+            k = rng.choice(['slice', 'slice', 'append', 'extend', 'pt', 'pts-append', 'pts-remove', 'pts-extend', 'pop', 'bad-batch', 'bad-batch',
+                            'rslice', 'rslice', 'rappend'])
             try:
-                if k == 'slice':
+                if k == 'rslice':
+                    L = a.refs
+                    i = rng.randrange(0, len(L) + 1)
+                    j = rng.randrange(i, len(L) + 1)
+                    vals = [rng.choice(pool) for _ in range(rng.randrange(1, 4))]
+                    a.refs[i:j] = vals
+                    hist.append(['refs[%d:%d] =' % (i, j), [pname[id(b)] for b in vals]])
+                elif k == 'rappend':
+                    b = rng.choice(pool)
+                    a.refs.append(b)
+                    hist.append(['refs.append', pname[id(b)]])
+                elif k == 'slice':
                     L = a.ints
                     i = rng.randrange(0, len(L) + 1)
                     j = rng.randrange(i, len(L) + 1)
@@ -267,6 +284,9 @@ def slice_and_tuple_scenarios(ctx, out):
                 have, seen = list(a.eGet(f)), list(mirror[f])
                 if sorted(map(repr, have)) != sorted(map(repr, seen)):
                     bad = ('mirror-content', f'a.{f} holds {have!r}, the observer built {seen!r} from {log[-3:]}')
+            if not bad and sorted(pname[id(b)] for b in a.refs) != sorted(pname[id(b)] for b in mirror['refs']):
+                bad = ('mirror-content', f'a.refs holds {[pname[id(b)] for b in a.refs]}, the observer built '
+                                         f'{[pname[id(b)] for b in mirror["refs"]]} from {log[-3:]}')
             if not bad and (a.pt != mirror['pt'] or type(a.pt) is not type(mirror['pt'])):
                 bad = ('mirror-content', f'a.pt is {a.pt!r}, the observer was told {mirror["pt"]!r} ({log[-1:]})')
             if bad:
